@@ -158,7 +158,8 @@ class Hict:
         self.log.append(("headers.update",))
 
     def m_items(self, ctx, r, a, k):
-        return ctx.alloc("list", init={"v": []})
+        # the entries known to be present because they were set through this object (a snapshot, as list(...items()))
+        return ctx.alloc("list", init={"v": [(kk, self.val[kk]) for kk in sorted(self.has) if self.has[kk] is True]})
 
 
 @contract(RESP + ".start", props=["C18"])
@@ -368,9 +369,6 @@ def responder_build(B):
     B.prog.text_models["join"] = join
     B.prog.text_models["encode"] = lambda c, s, a, k: c.fresh("bytes", "encoded")
 
-    def items(c, r, a, k):
-        return c.alloc("list", init={"v": [(kk, hict.val[kk]) for kk in sorted(hict.has) if hict.has[kk] is True]})
-    Hict.m_items = lambda self_, c, r, a, k: items(c, r, a, k)
     has_te0, te0 = z(hict.has["transfer-encoding"]), z(hict.val["transfer-encoding"])
     self = B.obj(RESP, hint="responder", incomer=B.ext(Incomer(log)), iterator=None, status=B.of("str", "status"), headers=href, chunked=False)
     chunkable = z(ctx.st(self)["chunkable"])
@@ -388,3 +386,136 @@ def responder_build(B):
     B.prove("head-ends-with-an-empty-line", z3.SuffixOf(z3.StringVal("\r\n\r\n"), z(r)), top=True)
     B.prove("server-and-date-headers-present", z3.And(z3.BoolVal(True) if hict.has["server"] is True else z(hict.has["server"]),
                                                       z3.BoolVal(True) if hict.has["date"] is True else z(hict.has["date"])), top=True)
+
+
+# ------------------------------------------------------------------------------------------------ service
+
+class HttpErr:
+    """an httping.HTTPError raised by the application: status, reason, headers and a rendered body"""
+
+    def __init__(self, ctx):
+        self.body = ctx.fresh("bytes", "errbody")
+        self.rendered = 0
+
+    def getattr(self, ctx, r, name):
+        if name == "status":
+            return ctx.fresh("int", "errstatus")
+        if name == "reason":
+            return ctx.fresh("str", "errreason")
+        if name == "headers":
+            return ctx.alloc("dict", init={"v": {}})
+        raise Undecided("HTTPError attribute " + name)
+
+    def m_render(self, ctx, r, a, k):
+        self.rendered += 1
+        return self.body
+
+
+@contract(RESP + ".service", props=["C18"])
+def responder_service(B):
+    """service(): one step of the WSGI iteration.  start() and write() are summarised by their own contracts above (virtual here:
+    what matters is WHEN they are called and with WHAT).
+        piece           -> written iff non-empty; ended iff a declared length is reached
+        StopIteration   -> the terminating empty write (ends a chunked body) and ended
+        HTTPError before the head went out -> start_response is called with a header list that ALREADY carries the
+                           Content-Length of the rendered error body (so start() switches chunking off and write() clamps to it),
+                           then exactly that body is written, then ended
+        closed or ended -> nothing happens"""
+    ctx = B.ctx
+    log = ctx.ghost["log"] = []
+    from pyvc import source as _src
+    httperror = _src.class_by_qual("hio.core.http.httping:HTTPError")
+    made = []
+
+    def mk_hict(interp, cls, a, k):
+        h = Hict(ctx, log)
+        for kk in h.has:
+            h.has[kk] = False           # a fresh, empty header mapping
+        h.m_update = lambda c, r, aa, kk2: None
+        made.append(h)
+        return B.ext(h)
+    B.prog.class_models["hio.help.hicting:Hict"] = mk_hict
+    B.prog.externals["sys.exc_info"] = lambda c, a, k: ("type", "value", "traceback")
+    err = HttpErr(ctx)
+    outcome = B.choice("piece", "stop", "httperror", "other-exception", label="app")
+    piece = B.bytes("piece")
+
+    class It:
+        def m___next__(self, c, r, a, k):
+            log.append(("next",))
+            if outcome == "piece":
+                return piece
+            if outcome == "stop":
+                raise PyExc(ExcVal(StopIteration, ()))
+            if outcome == "httperror":
+                ex = ExcVal(httperror, ("err",))
+                ex.attrs = {"status": c.fresh("int", "errstatus"), "reason": c.fresh("str", "errreason"),
+                            "headers": c.alloc("dict", init={"v": {}}),
+                            "render": ModelFn(lambda cc, aa, kk: err.m_render(cc, None, aa, kk), "HTTPError.render")}
+                raise PyExc(ex)
+            raise PyExc(ExcVal(RuntimeError, ("app bug",)))
+
+        def iter(self, c, r):
+            return r
+    has_len = B.choice(False, True, label="content-length-declared")
+    length = B.int("length") if has_len else None
+    size_after_write = B.int("size'")
+    self = B.obj(RESP, hint="responder", incomer=B.ext(Incomer(log)), iterator=B.ext(It()), length=length, size=B.int("size"),
+                 environ=None, app=None)
+    st0 = dict(ctx.st(self))
+
+    def start(c, a, k):
+        hdrs = BI.concrete_iter(c, a[1], must=True)
+        log.append(("start", a[0], [(conc(x[0]), x[1]) for x in hdrs], a[2] if len(a) > 2 else k.get("exc_info")))
+        # effect of start() per its contract: headers taken over, length from a declared Content-Length, started
+        h = Hict(c, log)
+        given = {conc(x[0]).lower(): x[1] for x in hdrs}
+        for kk in h.has:
+            h.has[kk] = kk in given
+            if kk in given:
+                h.val[kk] = given[kk]
+        stt = c.st(self)
+        stt["headers"] = c.alloc("ext", init={"model": h})
+        stt["length"] = c.fresh("int", "declared") if "content-length" in given else None
+        stt["started"] = True
+        return None
+    B.virtual(self, "start", start)
+
+    def write(c, a, k):
+        log.append(("write", BI.as_text(c, a[0])))
+        c.st(self)["size"] = size_after_write
+        c.st(self)["headed"] = True
+    B.virtual(self, "write", write)
+    B.call(self, qual=RESP + ".service")
+    B.no_other_exception()
+    if not B.returned():
+        return
+    st = ctx.st(self)
+    idle = z3.Or(z(st0["closed"]), z(st0["ended"]))
+    writes = [e for e in log if e[0] == "write"]
+    starts = [e for e in log if e[0] == "start"]
+    nexts = [e for e in log if e[0] == "next"]
+    B.prove("nothing-happens-when-closed-or-ended", z3.Implies(idle, z3.BoolVal(not writes and not starts and not nexts)), top=True)
+    B.prove("app-asked-for-exactly-one-piece-otherwise", z3.Implies(z3.Not(idle), z3.BoolVal(len(nexts) == 1)), top=True)
+    if not nexts:
+        return
+    if outcome == "piece":
+        B.prove("piece-written-iff-non-empty", (z3.Length(piece.t) > 0) == (len(writes) == 1), top=True)
+        if writes:
+            B.prove("writes-exactly-the-piece", z(writes[0][1]) == piece.t, top=True)
+            if has_len:
+                B.prove("ended-iff-declared-length-reached", z3.Or(z(st["ended"]), z(st0["ended"])) == z3.Or(size_after_write.t >= length.t, z(st0["ended"])), top=True)
+        B.prove("no-start_response-by-the-server-itself", not starts, top=True)
+    elif outcome == "stop":
+        B.prove("terminating-empty-write-and-ended", len(writes) == 1 and conc(writes[0][1]) == b"" and conc(st["ended"]) is True, top=True)
+    elif outcome == "httperror":
+        headed0 = z(st0["headed"])
+        B.prove("error-response-only-if-head-not-sent", z3.Not(headed0) == (len(starts) == 1), top=True)
+        if starts:
+            hdrs = dict(starts[0][2])
+            B.prove("start_response-gets-the-content-length-of-the-error-body", "content-length" in hdrs, top=True)
+            B.prove("error-body-written-once-after-start-and-ended", len(writes) == 1 and log.index(starts[0]) < log.index(writes[0]) and
+                    E.values_equal(ctx, writes[0][1], err.body) is not False and conc(st["ended"]) is True, top=True)
+            B.prove("start_response-gets-exc_info", starts[0][3] is not None, top=True)
+    else:
+        B.prove("application-bug-sends-nothing", not writes and not starts, top=True)
